@@ -182,3 +182,118 @@ func checkC02Spellings(c *Ctx, n int, p Profile) {
 		c.Distinct(results[0].Case.Description)
 	}
 }
+
+// GenClusterGroup: -abc [V] against -a -b -c [V] (and a partial split), flags drawn from the
+// declared short names including non-ASCII ones; the last option may take an argument, given as
+// a separate token.
+func GenClusterGroup(r *rand.Rand, p Profile) *spellingGroup {
+	p.Utf = 0.5
+	p.OnlyTypes = []string{"bool", "bool", "bool", "Lbool", "str", "int", "Lstr", "F-"}
+	g := &gen{r: r, p: p}
+	for attempt := 0; attempt < 50; attempt++ {
+		c := g.genCase()
+		real, outs := BuildReal(c)
+		if real.dead || len(outs) == 0 {
+			continue
+		}
+		opts := g.optsOf(real, real.p.Command)
+		uniq := func(o optInfo) bool {
+			n := 0
+			for _, o2 := range opts {
+				if o2.short == o.short {
+					n++
+				}
+			}
+			return n == 1 && o.short != 0 && o.short != '=' && o.short != '-' && !(c.Opts&flags.HelpFlag != 0 && o.short == 'h')
+		}
+		var flagsL, argL []optInfo
+		for _, o := range opts {
+			if !uniq(o) {
+				continue
+			}
+			if isBoolCode(o.code) {
+				flagsL = append(flagsL, o)
+			} else if !o.optional && o.code != "c1" {
+				argL = append(argL, o)
+			}
+		}
+		if len(flagsL) < 2 {
+			continue
+		}
+		k := 2 + r.Intn(3)
+		var cluster []optInfo
+		for i := 0; i < k; i++ {
+			cluster = append(cluster, flagsL[r.Intn(len(flagsL))])
+		}
+		var tail []string
+		if len(argL) > 0 && r.Intn(2) == 0 {
+			last := argL[r.Intn(len(argL))]
+			v := ""
+			for i := 0; i < 20 && !admissibleValue(v); i++ {
+				v = g.valueText(last.code, last.choices)
+			}
+			if admissibleValue(v) {
+				cluster = append(cluster, last)
+				tail = []string{v}
+			}
+		}
+		joined := "-"
+		var separate []string
+		for _, o := range cluster {
+			joined += string(o.short)
+			separate = append(separate, "-"+string(o.short))
+		}
+		half := len(cluster) / 2
+		partial := []string{"-", "-"}
+		for i, o := range cluster {
+			if i < half {
+				partial[0] += string(o.short)
+			} else {
+				partial[1] += string(o.short)
+			}
+		}
+		forms := [][]string{append([]string{joined}, tail...), append(separate, tail...), append(partial, tail...)}
+		labels := []string{"-abc", "-a -b -c", "-ab -c"}
+		sg := &spellingGroup{}
+		for i, f := range forms {
+			cc := *c
+			cc.Ops = []Op{{Kind: "parse", Args: f}}
+			cc.Description = fmt.Sprintf("cluster spelling %s: %q", labels[i], f)
+			sg.cases = append(sg.cases, &cc)
+			sg.labels = append(sg.labels, labels[i])
+		}
+		return sg
+	}
+	return nil
+}
+
+func checkC02Clusters(c *Ctx, n int, p Profile) {
+	for i := 0; i < n; i++ {
+		sg := GenClusterGroup(c.Rng, p)
+		if sg == nil {
+			continue
+		}
+		var results []*CaseResult
+		c.RunCases(sg.cases, func(cr *CaseResult) { results = append(results, cr) })
+		c.Class("cluster-group")
+		var keys []string
+		for _, cr := range results {
+			obs := parseBlocks(cr)
+			if len(obs) != 1 || obs[0].panic != "" {
+				keys = append(keys, "PANIC-or-missing")
+				continue
+			}
+			keys = append(keys, outcomeKey(obs[0]))
+		}
+		for j := 1; j < len(keys); j++ {
+			ok := keys[j] == keys[0]
+			in := map[string]interface{}{"a": results[0].Case.Description, "b": results[j].Case.Description}
+			if !ok {
+				in["case_file_a"] = c.saveCase(results[0])
+				in["case_file_b"] = c.saveCase(results[j])
+			}
+			c.Check("cluster-equals-separate-flags", ok, "C02:cluster-differs", in, keys[j], keys[0])
+		}
+		c.Distinct(results[0].Case.Description)
+	}
+}
